@@ -12,6 +12,7 @@ type G struct {
 	wake chan wakeMsg
 	done bool
 	name string
+	vc   []int // vector clock (happens-before tracking, see race.go)
 }
 
 type waiter struct {
@@ -19,9 +20,12 @@ type waiter struct {
 	val         Value
 	ok          bool
 	closedPanic bool
+	vc          []int // clock of the sender (send waiters) / of the receiver when it blocked (recv waiters)
 }
 
 type Chan struct {
+	bufVC   [][]int // clocks of the buffered sends
+	closeVC []int
 	buf    []Value
 	cap    int
 	closed bool
@@ -52,6 +56,9 @@ type abortG struct{}
 
 func (s *Sched) spawn(name string, fn func()) {
 	g := &G{id: len(s.all), wake: make(chan wakeMsg, 1), name: name}
+	g.vc = vcCopy(s.cur.vc)
+	vcTick(&g.vc, g.id)
+	vcTick(&s.cur.vc, s.cur.id)
 	s.all = append(s.all, g)
 	s.runq = append(s.runq, g)
 	s.wg.Add(1)
@@ -149,18 +156,30 @@ func (s *Sched) send(c *Chan, v Value) {
 	if c.closed {
 		s.in.rtPanic("send on closed channel")
 	}
+	vcTick(&s.cur.vc, s.cur.id)
 	if len(c.recvq) > 0 {
 		w := c.recvq[0]
 		c.recvq = c.recvq[1:]
 		w.val, w.ok = v, true
+		// the receive happens after the send; for an unbuffered channel the send completes after
+		// the receive started
+		recvVC := w.vc
+		vcJoin(&w.g.vc, s.cur.vc)
+		if c.cap == 0 {
+			vcJoin(&s.cur.vc, recvVC)
+		}
+		vcTick(&s.cur.vc, s.cur.id) // what the sender does from now on is not covered by this send
 		s.makeRunnable(w.g)
 		return
 	}
 	if len(c.buf) < c.cap {
 		c.buf = append(c.buf, v)
+		c.bufVC = append(c.bufVC, vcCopy(s.cur.vc))
+		vcTick(&s.cur.vc, s.cur.id)
 		return
 	}
-	w := &waiter{g: s.cur, val: v}
+	w := &waiter{g: s.cur, val: v, vc: vcCopy(s.cur.vc)}
+	vcTick(&s.cur.vc, s.cur.id)
 	c.sendq = append(c.sendq, w)
 	s.block()
 	if w.closedPanic {
@@ -172,13 +191,19 @@ func (s *Sched) recv(c *Chan) (Value, bool) {
 	if c == nil {
 		s.block()
 	}
+	vcTick(&s.cur.vc, s.cur.id)
 	if len(c.buf) > 0 {
 		v := c.buf[0]
 		c.buf = c.buf[1:]
+		if len(c.bufVC) > 0 {
+			vcJoin(&s.cur.vc, c.bufVC[0])
+			c.bufVC = c.bufVC[1:]
+		}
 		if len(c.sendq) > 0 {
 			w := c.sendq[0]
 			c.sendq = c.sendq[1:]
 			c.buf = append(c.buf, w.val)
+			c.bufVC = append(c.bufVC, w.vc)
 			s.makeRunnable(w.g)
 		}
 		return v, true
@@ -186,13 +211,21 @@ func (s *Sched) recv(c *Chan) (Value, bool) {
 	if len(c.sendq) > 0 {
 		w := c.sendq[0]
 		c.sendq = c.sendq[1:]
+		mine := vcCopy(s.cur.vc)
+		vcJoin(&s.cur.vc, w.vc)
+		if c.cap == 0 {
+			vcJoin(&w.g.vc, mine)
+		}
+		vcTick(&s.cur.vc, s.cur.id)
 		s.makeRunnable(w.g)
 		return w.val, true
 	}
 	if c.closed {
+		vcJoin(&s.cur.vc, c.closeVC)
 		return copyVal(c.zero), false
 	}
-	w := &waiter{g: s.cur}
+	w := &waiter{g: s.cur, vc: vcCopy(s.cur.vc)}
+	vcTick(&s.cur.vc, s.cur.id)
 	c.recvq = append(c.recvq, w)
 	s.block()
 	return w.val, w.ok
@@ -203,7 +236,11 @@ func (s *Sched) closeChan(c *Chan) {
 		s.in.rtPanic("close of closed channel")
 	}
 	c.closed = true
+	vcTick(&s.cur.vc, s.cur.id)
+	c.closeVC = vcCopy(s.cur.vc)
+	defer vcTick(&s.cur.vc, s.cur.id)
 	for _, w := range c.recvq {
+		vcJoin(&w.g.vc, c.closeVC)
 		w.val, w.ok = copyVal(c.zero), false
 		s.makeRunnable(w.g)
 	}
